@@ -129,4 +129,8 @@ package round
 //@   ensures[C20] result1 == nil ==> inslice(result0.partyIDs, info.SelfID)
 //@   ensures[C20] result1 == nil ==> forall(x, party.ID, inslice(result0.partyIDs, x) == inslice(info.PartyIDs, x))
 //@   ensures[C20] result1 == nil ==> (info.Threshold >= 0 && info.Threshold <= len(result0.partyIDs) - 1 && len(result0.partyIDs) > 0)
+// every identifier is a usable evaluation point: its scalar is not zero (a dealer evaluating its polynomial there
+// would otherwise hand out its secret -- polynomial.Evaluate refuses with a panic)
+//@   ensures[C20,C05] (result1 == nil && info.Group != nil) ==> forall(x, party.ID, inslice(result0.partyIDs, x) ==> idsc(x) != s_zero())
+//@   loop 1: invariant each(partyIDs[:rangeindex+1], x, idsc(x) != s_zero())
 //@   ensures result1 == nil ==> (result0.hash != nil && result0.hash.h != nil && result0.info.Group == info.Group && result0.info.SelfID == info.SelfID && result0.info.Threshold == info.Threshold && fresh(result0) && !held(result0.mtx))
